@@ -2183,7 +2183,7 @@ class Engine:
                     m = cls.find_method(n.func.attr) if cls is not None else None
                     if m is not None:
                         mct = self.registry.contract_for(m.key)
-                        if mct is not None:
+                        if mct is not None and self.contract.callee_mode(m.key) != "opaque":
                             return self.apply_contract(mct, m, [recv] + args, kwargs, n)
                 return self.opaque_call(n.func.attr, recv, args, kwargs, n)
             f = self.getattr(recv, n.func.attr, n.func)
